@@ -810,6 +810,24 @@ impl Callbacks for Dump {
                         ("ty", s(tys(tcx.type_of(did).instantiate_identity().skip_norm_wip()))),
                         ("span", s(tcx.sess.source_map().span_to_diagnostic_string(tcx.def_span(did)))),
                     ]));
+                    // a #[no_mangle] / #[export_name] static is an exported data symbol
+                    let attrs = tcx.codegen_fn_attrs(did);
+                    let nm = attrs.flags.contains(rustc_middle::middle::codegen_fn_attrs::CodegenFnAttrFlags::NO_MANGLE);
+                    if nm || attrs.symbol_name.is_some() {
+                        let sym = match attrs.symbol_name { Some(n) => s(n), None => s(tcx.item_name(did)) };
+                        externs.push(J::Obj(vec![
+                            ("path", s(dp(tcx, did))),
+                            ("symbol", sym),
+                            ("abi", s("static")),
+                            ("no_mangle", J::Bool(true)),
+                            ("pub", J::Bool(tcx.visibility(did).is_public())),
+                            ("reachable", J::Bool(tcx.effective_visibilities(()).is_reachable(ldid))),
+                            ("params", J::Arr(Vec::new())),
+                            ("param_names", J::Arr(Vec::new())),
+                            ("ret", J::Null),
+                            ("span", s(tcx.sess.source_map().span_to_diagnostic_string(tcx.def_span(did)))),
+                        ]));
+                    }
                 }
                 DefKind::Struct | DefKind::Enum | DefKind::Union => {
                     let def = tcx.adt_def(did);
@@ -878,7 +896,9 @@ impl Callbacks for Dump {
                     let sig = tcx.fn_sig(did).instantiate_identity().skip_norm_wip();
                     let abi = format!("{:?}", sig.abi());
                     let attrs = tcx.codegen_fn_attrs(did);
-                    let nm = attrs.flags.contains(rustc_middle::middle::codegen_fn_attrs::CodegenFnAttrFlags::NO_MANGLE);
+                    // #[no_mangle] or #[export_name = ".."]: exported under a fixed name
+                    let nm = attrs.flags.contains(rustc_middle::middle::codegen_fn_attrs::CodegenFnAttrFlags::NO_MANGLE) || attrs.symbol_name.is_some();
+                    let sym = match attrs.symbol_name { Some(n) => s(n), None => s(tcx.item_name(did)) };
                     if nm || abi.starts_with("C") {
                         let tenv = TypingEnv::post_analysis(tcx, did);
                         let sig = tcx.instantiate_bound_regions_with_erased(sig);
@@ -900,7 +920,7 @@ impl Callbacks for Dump {
                         }
                         externs.push(J::Obj(vec![
                             ("path", s(dp(tcx, did))),
-                            ("symbol", s(tcx.item_name(did))),
+                            ("symbol", sym),
                             ("abi", s(abi)),
                             ("no_mangle", J::Bool(nm)),
                             ("pub", J::Bool(tcx.visibility(did).is_public())),
